@@ -5,7 +5,9 @@ patch="$1"; tier="$2"; shift 2
 cd /verif
 if ! git -C /repo diff --quiet; then echo "repo dirty"; exit 3; fi
 git -C /repo apply "$patch" || { echo "patch does not apply"; exit 3; }
-trap 'git -C /repo checkout -- . ; git -C /repo clean -fdq' EXIT INT TERM
+# evidence written while a seeded change is applied must never be committed: keep the old files
+evbak=$(mktemp -d); cp -a evidence/. "$evbak"/
+trap 'git -C /repo checkout -- . ; git -C /repo clean -fdq; cp -a "$evbak"/. /verif/evidence/; rm -rf "$evbak"' EXIT INT TERM
 for p in "$@"; do
   ./run check "$p" "$tier" 2>&1 | grep -E "^(VIOLATION|  signature|C[0-9]+ |INCONC|OK)" | head -12
   echo "== $p exit status: (see lines above)"
